@@ -124,6 +124,8 @@ def sideStep (s : SpecSide) (op : Op) (out : Py Out) : SpecSide :=
   | .resolve .. => s
   | .close _ id => s.close id
   | .xfer _ => s
+  | .resolveMany .. => s
+  | .sendsnl _ id _ _ => s.implicitBind id
 
 /-- transition function of the specification -/
 def step (σ : SpecState) (op : Op) (out : Py Out) : SpecState :=
@@ -150,7 +152,8 @@ def valid (s : SpecSide) (op : Op) (out : Py Out) : Prop :=
     else if s.kind id = .ldl then (s.bound id = none → errno (s.bind id .none) out) else True
   | .sendpdu _ id _ _ _ => s.bound id = none → errno (s.bind id .none) out
   | .accept _ id => ∀ nid a pr, out = .ok (.sock nid a pr) → nid = s.n ∧ a = s.bound id ∧ a.isSome
-  | .recvfrom .. | .resolve .. | .xfer _ => True
+  | .sendsnl _ id _ _ => s.bound id = none → errno (s.bind id .none) out
+  | .recvfrom .. | .resolve .. | .xfer _ | .resolveMany .. => True
 
 end Spec
 
@@ -503,6 +506,18 @@ theorem sim_sendpdu {p : Pair} {x : Side} {id : Nat} {d s : Nat} {m : Bytes} {r 
       all_goals first | (cases hk; done) | (cases hk; exact .refl _) | (cases hk; exact pframe_setSock _ _ _ _ rfl rfl))
     exact ⟨h1, h2, h3⟩
 
+theorem sim_sendsnl {p : Pair} {x : Side} {id : Nat} {rq : List (Nat × Bytes)} {rs : List (Nat × Nat)}
+    {r : Pair × Py Out}
+    (h : apiSendPdu p x id (.snl rq rs) = .ok r) : Sim p (.sendsnl x id rq rs) r := by
+  unfold apiSendPdu at h
+  split at h
+  · cases h
+  · obtain ⟨h1, h2, h3⟩ := sim_withBound h (fun p1 hk => by
+      dsimp only at hk
+      repeat' split at hk
+      all_goals first | (cases hk; done) | (cases hk; exact .refl _) | (cases hk; exact pframe_setSock _ _ _ _ rfl rfl))
+    exact ⟨h1, h2, h3⟩
+
 theorem sim_connect {p : Pair} {x : Side} {id : Nat} {d : Dest} {r : Pair × Py Out}
     (h : apiConnect p x id d = .ok r) : Sim p (.connect x id d) r := by
   unfold apiConnect at h
@@ -582,6 +597,23 @@ theorem sim_resolve {p : Pair} {x : Side} {nm : Bytes} {r : Pair × Py Out}
   have s1 : PFrame p p1 := (pframe_set _ _ _ (by rfl)).trans (pump_frame _ hpump)
   repeat' split at h
   all_goals first | (cases h; done) | (cases h; exact s1)
+
+theorem sim_resolveMany {p : Pair} {x : Side} {nms : List Bytes} {r : Pair × Py Out}
+    (h : apiResolveMany p x nms = .ok r) : Sim p (.resolveMany x nms) r := by
+  refine sim_of_frame ?_ rfl trivial
+  unfold apiResolveMany at h
+  simp only at h
+  split at h
+  · cases h
+  · simp only [Py.bind_eq_ok] at h
+    obtain ⟨p1, hpump, h⟩ := h
+    have s1 : PFrame p p1 := by
+      split at hpump
+      · cases hpump; exact .refl _
+      · exact (pframe_set _ _ _ (by rfl)).trans (pump_frame _ hpump)
+    split at h
+    · cases h; exact s1
+    · cases h
 
 theorem sim_xfer {p : Pair} {x : Side} {r : Pair × Py Out}
     (h : apiXfer p x = .ok r) : Sim p (.xfer x) r := by
@@ -738,6 +770,8 @@ theorem sim_applyOp {p : Pair} {op : Op} {r : Pair × Py Out} (h : applyOp p op 
   | resolve x nm => exact sim_resolve h
   | close x id => exact sim_close h
   | xfer x => exact sim_xfer h
+  | resolveMany x nms => exact sim_resolveMany h
+  | sendsnl x id rq rs => exact sim_sendsnl h
 
 theorem absP_get (p : Pair) (x : Side) : (absP p).get x = absS (p.get x) := by cases x <;> rfl
 
@@ -902,6 +936,8 @@ theorem specInv_sideStep {s : SpecSide} (hi : SpecInv s) (op : Op) (out : Py Out
   | resolve x nm => exact hi
   | close x id => exact specInv_close hc
   | xfer x => exact hi
+  | resolveMany x nms => exact hi
+  | sendsnl x id rq rs => exact specInv_implicitBind hc (hw id rfl)
 
 theorem specInv_init : SpecInv Spec.init.a ∧ SpecInv Spec.init.b :=
   ⟨(inv_abs_iff _).mpr init_inv, (inv_abs_iff _).mpr init_inv⟩
